@@ -205,6 +205,19 @@ func (s *Sched) access(o *Object) {
 
 func (s *Sched) mainDone() {}
 
+// killOthers ends every goroutine except the current one (a simulated process crash).
+func (s *Sched) killOthers() {
+	for _, g := range s.gs {
+		if g != s.cur && !g.done {
+			g.done = true
+			select {
+			case g.wake <- false:
+			default:
+			}
+		}
+	}
+}
+
 func (s *Sched) killAll() {
 	for _, g := range s.gs[1:] {
 		if !g.done {
